@@ -10,31 +10,31 @@ from ..engines import Facts, key
 from ..extent import Poly, prove_nonneg
 from ..facts import AnalysisBroken
 
-# (function, subtraction text without blanks) -> invariant that makes A >= B
+# (function, shape of the subtraction: text without blanks, the function's variables written $) -> invariant that makes A >= B
 REVIEWED = {
-    ("bn_gen_prime_stron", "(bits/2)-1"): "documented: bits is the length of an RSA-size prime, never below 2 (a request for a 0/1-bit prime has no answer)",
-    ("bn_rec_slw", "i-w"): "wraps for i + 1 < w, but the wrapped value converts back to the negative int i - w + 1 and bn_get_bit answers 0 for "
+    ("bn_gen_prime_stron", "($/2)-1"): "documented: bits is the length of an RSA-size prime, never below 2 (a request for a 0/1-bit prime has no answer)",
+    ("bn_rec_slw", "$-$"): "wraps for i + 1 < w, but the wrapped value converts back to the negative int i - w + 1 and bn_get_bit answers 0 for "
                            "bit numbers outside the integer: the scan starts below bit 0 and stops at the lowest set bit, the same window",
-    ("bn_rec_rtnaf", "w-1"): "documented window width 2 <= w <= 8 (bn_rec_tnaf_get indexes fixed tables by it)",
-    ("bn_rec_sac", "l-1"): "l = RLC_CEIL(n, c * m) + 1 >= 1 by construction and only ever raised (RLC_MAX)",
-    ("bn_sqr_basic", "a->used-1"): "multiple-precision integers always have ->used >= 1 (bn_trim, bn_zero keep one digit)",
-    ("bn_write_bin", "a->used-1"): "multiple-precision integers always have ->used >= 1 (bn_trim, bn_zero keep one digit)",
-    ("fp12_exp_cyc_sps", "w-1"): "w = len / 2 + 1 style count of a sparse exponent: at least 1",
-    ("fp24_exp_cyc_sps", "w-1"): "same construction as fp12_exp_cyc_sps",
-    ("fp48_exp_cyc_sps", "w-1"): "same construction as fp12_exp_cyc_sps",
-    ("fp54_exp_cyc_sps", "w-1"): "same construction as fp12_exp_cyc_sps",
-    ("ep_mul_sim_lot_endom", "util_bits_dig(n)-2"): "only reached for batches of more than 10 points (else-branch of the small-batch test): util_bits_dig(n) >= 4",
-    ("ep2_mul_sim_lot", "util_bits_dig(n)-2"): "only reached for batches of more than 10 points (else-branch of the small-batch test): util_bits_dig(n) >= 4",
-    ("ep3_mul_sim_lot", "util_bits_dig(n)-2"): "only reached for batches of more than 10 points (else-branch of the small-batch test): util_bits_dig(n) >= 4",
-    ("ep4_mul_sim_lot", "util_bits_dig(n)-2"): "only reached for batches of more than 10 points (else-branch of the small-batch test): util_bits_dig(n) >= 4",
-    ("ep8_mul_sim_lot", "util_bits_dig(n)-2"): "only reached for batches of more than 10 points (else-branch of the small-batch test): util_bits_dig(n) >= 4",
-    ("cp_rsa_enc", "size-RSA_PAD_LEN"): "tiny moduli (shorter than the padding overhead) are not keys of the scheme; the wrapped bound admits the request and the padding routine then fails with an error (replayed with 64- and 79-bit keys under ASan: error return, no invalid access)",
-    ("cp_rsa_sig", "size-2"): "tiny moduli (shorter than the padding overhead) are not keys of the scheme; the wrapped bound admits the request and the padding routine then fails with an error (replayed with 64- and 79-bit keys under ASan: error return, no invalid access)",
-    ("cp_rsa_ver", "size-2"): "tiny moduli (shorter than the padding overhead) are not keys of the scheme; the wrapped bound admits the request and the padding routine then fails with an error (replayed with 64- and 79-bit keys under ASan: error return, no invalid access)",
-    ("cp_rabin_enc", "(size-RABIN_PAD_LEN)-2"): "tiny moduli (shorter than the padding overhead) are not keys of the scheme; the wrapped bound admits the request and the padding routine then fails with an error (replayed with 64- and 79-bit keys under ASan: error return, no invalid access)",
-    ("cp_rabin_enc", "size-RABIN_PAD_LEN"): "tiny moduli (shorter than the padding overhead) are not keys of the scheme; the wrapped bound admits the request and the padding routine then fails with an error (replayed with 64- and 79-bit keys under ASan: error return, no invalid access)",
-    ("bn_modn_low", "(2*sm)-1"): "low-level contract: sm is the digit count of a non-empty modulus",
-    ("bn_muld_low", "sa-ta"): "low-level contract of the truncated product: sa >= ta (callers pass the operand size and the cut)",
+    ("bn_rec_rtnaf", "$-1"): "documented window width 2 <= w <= 8 (bn_rec_tnaf_get indexes fixed tables by it)",
+    ("bn_rec_sac", "$-1"): "l = RLC_CEIL(n, c * m) + 1 >= 1 by construction and only ever raised (RLC_MAX)",
+    ("bn_sqr_basic", "$->used-1"): "multiple-precision integers always have ->used >= 1 (bn_trim, bn_zero keep one digit)",
+    ("bn_write_bin", "$->used-1"): "multiple-precision integers always have ->used >= 1 (bn_trim, bn_zero keep one digit)",
+    ("fp12_exp_cyc_sps", "$-1"): "w = len / 2 + 1 style count of a sparse exponent: at least 1",
+    ("fp24_exp_cyc_sps", "$-1"): "same construction as fp12_exp_cyc_sps",
+    ("fp48_exp_cyc_sps", "$-1"): "same construction as fp12_exp_cyc_sps",
+    ("fp54_exp_cyc_sps", "$-1"): "same construction as fp12_exp_cyc_sps",
+    ("ep_mul_sim_lot_endom", "util_bits_dig($)-2"): "only reached for batches of more than 10 points (else-branch of the small-batch test): util_bits_dig(n) >= 4",
+    ("ep2_mul_sim_lot", "util_bits_dig($)-2"): "only reached for batches of more than 10 points (else-branch of the small-batch test): util_bits_dig(n) >= 4",
+    ("ep3_mul_sim_lot", "util_bits_dig($)-2"): "only reached for batches of more than 10 points (else-branch of the small-batch test): util_bits_dig(n) >= 4",
+    ("ep4_mul_sim_lot", "util_bits_dig($)-2"): "only reached for batches of more than 10 points (else-branch of the small-batch test): util_bits_dig(n) >= 4",
+    ("ep8_mul_sim_lot", "util_bits_dig($)-2"): "only reached for batches of more than 10 points (else-branch of the small-batch test): util_bits_dig(n) >= 4",
+    ("cp_rsa_enc", "$-RSA_PAD_LEN"): "tiny moduli (shorter than the padding overhead) are not keys of the scheme; the wrapped bound admits the request and the padding routine then fails with an error (replayed with 64- and 79-bit keys under ASan: error return, no invalid access)",
+    ("cp_rsa_sig", "$-2"): "tiny moduli (shorter than the padding overhead) are not keys of the scheme; the wrapped bound admits the request and the padding routine then fails with an error (replayed with 64- and 79-bit keys under ASan: error return, no invalid access)",
+    ("cp_rsa_ver", "$-2"): "tiny moduli (shorter than the padding overhead) are not keys of the scheme; the wrapped bound admits the request and the padding routine then fails with an error (replayed with 64- and 79-bit keys under ASan: error return, no invalid access)",
+    ("cp_rabin_enc", "($-RABIN_PAD_LEN)-2"): "tiny moduli (shorter than the padding overhead) are not keys of the scheme; the wrapped bound admits the request and the padding routine then fails with an error (replayed with 64- and 79-bit keys under ASan: error return, no invalid access)",
+    ("cp_rabin_enc", "$-RABIN_PAD_LEN"): "tiny moduli (shorter than the padding overhead) are not keys of the scheme; the wrapped bound admits the request and the padding routine then fails with an error (replayed with 64- and 79-bit keys under ASan: error return, no invalid access)",
+    ("bn_modn_low", "(2*$)-1"): "low-level contract: sm is the digit count of a non-empty modulus",
+    ("bn_muld_low", "$-$"): "low-level contract of the truncated product: sa >= ta (callers pass the operand size and the cut)",
 }
 
 
@@ -91,6 +91,9 @@ def analyse(ctx, prog, chk):
                 txt = re.sub(r"\s+", "", fn.fmt(sub))
                 if txt.startswith("(") and txt.endswith(")"):
                     txt = txt[1:-1]
+                # shape of the subtraction with the function's own variables abstracted (a renamed local stays reviewed)
+                names = sorted(set(v["n"] for v in fn.vars if v.get("n")), key=len, reverse=True)
+                shape = re.sub(r"\b(%s)\b(?!\()" % "|".join(re.escape(x) for x in names), "$", txt) if names else txt
                 if (txt, nd.line()) in seen:
                     continue
                 seen.add((txt, nd.line()))
@@ -109,9 +112,9 @@ def analyse(ctx, prog, chk):
                 base = fn.name.split("__")[-1]
                 if ok:
                     chk.ok("WRAP", fn, txt, "%s >= %s follows from the comparisons in force" % (fn.fmt(sub[2])[:30], fn.fmt(sub[3])[:30]), line=nd.line())
-                elif (base, txt) in REVIEWED:
-                    used.add((base, txt))
-                    chk.ok("WRAP", fn, txt, "reviewed invariant: " + REVIEWED[(base, txt)], line=nd.line())
+                elif (base, shape) in REVIEWED:
+                    used.add((base, shape))
+                    chk.ok("WRAP", fn, txt, "reviewed invariant: " + REVIEWED[(base, shape)], line=nd.line())
                 else:
                     chk.fail("WRAP", fn, txt, "the unsigned subtraction `%s` in the %s condition `%s` can wrap: nothing in force at that point makes %s >= %s" % (
                         fn.fmt(sub)[:40], t["k"].replace("Stmt", "").lower(), fn.fmt(t["c"])[:50], fn.fmt(sub[2])[:25], fn.fmt(sub[3])[:25]), line=nd.line())
